@@ -243,13 +243,37 @@ def run(tier: str, seed: int) -> int:
             f"(d0={float(e['d0']):.6g}, d1={float(e['d1']):.6g}, d2={float(e['d2']):.6g}, h0={float(e['h0']):.6g}, branch {e['branch']}); relative deviation {err:.3g}; {why}",
             {"kind": "exact", "instance": printable},
         )
+    # ---- vector / pytree states: four identical copies of a scalar instance, partitioned into leaves in three ways, must give
+    # the exact value of the scalar instance with halved tolerances (Euclidean norms double) - whatever the partition
+    sub = [inst for j, inst in enumerate(insts) if j in res][: (30 if tier == "quick" else 250)]
+    res2, dropped2, st, gen, fail2 = H.eval_exact([H.halved(i) for i in sub])
+    rep.states += st
+    rep.transitions += gen
+    ncopies = 0
+    for j, inst in enumerate(sub):
+        if j not in res2 or H.near_threshold(res2[j]):
+            continue
+        e = res2[j]
+        for layout in H.LAYOUTS:
+            h = H.call_instance_copies(inst, layout)
+            rep.traces += 1
+            ncopies += 1
+            rep.add_case(("hnw-copies", j, layout) if not e["guard"] else None)
+            err = H.compare_instance(H.halved(inst), e, h)
+            if err > 1e-9:
+                printable = {k: str(v) for k, v in inst.items()}
+                rep.violation(f"impl:dt0_adaptive:vector-state:{'flat' if layout.startswith('flat') else 'pytree-partition'}",
+                              f"dt0_adaptive = {h!r} on four copies of y' = {printable['a0']} + {printable['a1']} y + {printable['a2']} y^2 + {printable['b']} t, y({printable['t0']}) = {printable['y0']} "
+                              f"(state layout {layout}), atol={printable['atol']}, rtol={printable['rtol']}, p={inst['p']}; the specification (scalar instance with halved tolerances) gives "
+                              f"{e['kind']} {float(e['val'])!r}; relative deviation {err:.3g}", {"kind": "exact-copies", "instance": printable, "layout": layout})
+    rep.extra["hnw_vector_state_calls"] = ncopies
     rep.extra["violating_calls_per_key"] = dict(counts)
     rep.extra["hnw_instances"] = {"given": len(insts), "dropped_32bit": len(dropped), "near_threshold_skipped": near, "branches": dict(kinds), "worst_rel_err_of_passing": worst}
     rep.assumptions = [
         "abstract model: rounding (relative 2^-53) does not move a value across a class boundary; representatives are chosen away from the boundaries 1e-15, 1e-5, 1e150",
         "abstract model: ||f1 - f0|| is an input class (any class, including inf/nan when the Euler point overflowed); the vector field itself is not modelled",
         "the property's domain is read as: finite states and f(u0) of every magnitude, atol, rtol in [1e-12, 1], rates 1..12",
-        "HNW instances are scalar (the weighted RMS norm of a scalar is |x|/sc) with rational data representable in 32 bits; max(d1,d2) <= 1e-15 is then equivalent to = 0",
+        "HNW instances are scalar (the weighted norm of a scalar is |x|/sc) or four identical copies of a scalar problem (Euclidean norms: exactly the scalar instance with halved tolerances) with rational data representable in 32 bits; max(d1,d2) <= 1e-15 is then equivalent to = 0",
         "a failing solve is attributed to the proposal only if the same solve finishes from a fixed reference step (1e-6, 1e-3 or 0.1)",
         f"solves: dense model, TS0, uncalibrated solver, filter, {H.NUM_DERIVATIVES} derivatives, t in [0, 1], atol = rtol = {SOLVE_TOL}, at most {H.ITERATION_CAP} loop iterations",
     ]
@@ -287,6 +311,18 @@ def replay(rep_obj) -> int:
         h = H.call_instance(inst)
         err = H.compare_instance(inst, res[0], h)
         print(f"dt0_adaptive -> {h!r}; spec {res[0]['kind']} {float(res[0]['val'])!r}; relative deviation {err:.3g}")
+        return 1 if err > 1e-9 else 0
+    if r.get("kind") == "exact-copies":
+        from fractions import Fraction
+
+        inst = {k: (int(v) if k == "p" else Fraction(v)) for k, v in r["instance"].items()}
+        res, dropped, _, _, fail = H.eval_exact([H.halved(inst)])
+        if fail is not None or 0 not in res:
+            print("specification could not be evaluated")
+            return 2
+        h = H.call_instance_copies(inst, r["layout"])
+        err = H.compare_instance(H.halved(inst), res[0], h)
+        print(f"dt0_adaptive ({r['layout']}) -> {h!r}; spec {res[0]['kind']} {float(res[0]['val'])!r}; relative deviation {err:.3g}")
         return 1 if err > 1e-9 else 0
     if r.get("kind") == "arith":
         print("re-run ./check C18 (the arithmetic relation is replayed as a whole)")
